@@ -17,7 +17,7 @@ P = {
    "Closed-loop simulation of the real forwarding path (handle_srt_packet / forward_via_connection / send_stall_probes / flush_all_batches / send_all_datagrams) under seeded arm interleavings, all batch regimes, link loss, black holes, send errors, short and zero-progress sendmmsg, re-registration, reloads and stalls; a per-link FIFO ledger checks every send_batch call byte for byte, in order, once, the 32-datagram / one-flush-tick hold bound, the probe budget, and that only excused datagrams go missing. Sampling, not enumeration: a clean batch is evidence, not proof.",
    "Trusted: hook H3 as the only way stream bytes leave, the environment models. Engine L mirrors the select! glue; one run in six executes the real run_sender_with_config (engine W: paused tokio clock, seeded select! order, listener shim, wire-level conservation / order / hold-bound / duplicate-budget oracle) so that the glue of src/sender/mod.rs is covered too. Kernel UDP and recvmmsg are outside the simulation.",
    "§P-C01"),
- "C02": (True, "L", "exploration",
+ "C02": (True, "LK", "exploration",
    "Closed-loop simulation (send side fault-free) with retransmissions of already-acknowledged numbers, duplicate probes, receiver ACK/NAK traffic and forged well-formed cumulative ACKs (stale, duplicate, >64 ahead), SRTLA ACK lists on any link, NAK singles/ranges and link resets; after every step each link's outstanding log is compared as a set with a high-water-mark-free set model, plus in-flight = |set| >= 0 and score = window/(|set|+queued+1). Seeded sampling of histories: evidence, not proof.",
    "Trusted: the packet log exposed by the repository's own test-internals feature is the implementation's notion of outstanding packets; choices the statement leaves open (which other holder an SRTLA ACK retires, whether a NAK is charged) are read from observation. Send failures are outside the quantifier and not injected here.",
    "§P-C02"),
